@@ -34,7 +34,9 @@ from props import c11
 
 EXTRACTORS = ["Registry", "Cacheconc"]
 EXTRA_PROPS = ["C10Cache"]   # cache_concurrent_serializable (Props/C10Cache.lean); harness part in c10_cache.py
-STEP_TIMEOUT = 20.0          # seconds a single scheduler step may take before the machinery gives up
+STEP_TIMEOUT = 20.0          # seconds the scheduler waits for any progress before it gives up
+BLOCK_TIMEOUT = 2.5          # a step that takes longer is taken to wait on a primitive the scheduler does not know (an Event, a
+                             # Condition, a lock created inside a function): the worker is left alone and others are scheduled
 POINT_CAP = 3                # preemptions per source line and event kind within one call into the traced files
 METHODS = ["register", "register_on_import", "get_by_tensors", "get_by_name", "get", "enter", "exit"]
 
@@ -153,8 +155,12 @@ class ProxySet:
             pr.owner, pr.count = None, 0
 
 
+OS_BLOCK_BUDGET = 8          # per process: each such wait costs BLOCK_TIMEOUT seconds
+
+
 class Scheduler:
     """Runs worker functions in threads, one at a time; preemption points are the trace events in `files`."""
+    total_os_blocks = 0
 
     def __init__(self, files, point_filter=None):
         self.back = None
@@ -167,6 +173,7 @@ class Scheduler:
         self.by_ident = {}
         self.deadlock = False
         self.blocked = 0         # how often a thread had to wait for the lock
+        self.state_lock = threading.Lock()
 
     def add(self, fn):
         w = Worker(len(self.workers), fn)
@@ -178,8 +185,9 @@ class Scheduler:
 
     # ---- worker side.  Hand-over by two binary semaphores per step (no condition variable: nobody else is woken up).
     def _yield(self, w, new_state):
-        w.state = new_state
-        self.back.release()
+        with self.state_lock:
+            w.state = new_state
+        self.back.put(w.idx)
         w.go.acquire()
         if self.aborted:
             raise SchedulerAbort()
@@ -224,7 +232,7 @@ class Scheduler:
         self.by_ident[threading.get_ident()] = w
         try:
             w.state = "ready"
-            self.back.release()          # "started"
+            self.back.put(w.idx)         # "started"
             w.go.acquire()
             if self.aborted:
                 return
@@ -240,13 +248,11 @@ class Scheduler:
             w.error = e
         finally:
             was_aborted = self.aborted
-            w.state = "done"
+            with self.state_lock:
+                w.state = "done"
             w.pos = ("end", 0, "end", "")
             if not was_aborted:
-                try:
-                    self.back.release()
-                except RuntimeError:
-                    pass
+                self.back.put(w.idx)
 
     # ---- scheduler side
     def enabled(self):
@@ -256,10 +262,37 @@ class Scheduler:
                 out.append(w.idx)
         return out
 
+    def _drain(self):
+        """Forget notifications of workers that were left waiting on an unknown primitive and have since reached a point."""
+        import queue
+        while True:
+            try:
+                self.back.get_nowait()
+            except queue.Empty:
+                return
+
+    def _await(self, idx, timeout):
+        """Wait until worker `idx` reports (next point, blocked on a known lock, or done).  Reports of other workers (left
+        waiting earlier) are absorbed: they have set their own state."""
+        import queue
+        deadline = time.time() + timeout
+        while True:
+            left = deadline - time.time()
+            if left <= 0:
+                return False
+            try:
+                i = self.back.get(timeout=left)
+            except queue.Empty:
+                return False
+            if i == idx:
+                return True
+
     def run(self, policy):
-        # plain locks used as binary semaphores (released by a thread other than the one that acquired them)
-        self.back = threading.Lock()
-        self.back.acquire()
+        # workers report to the scheduler through a queue of worker indices; the scheduler grants steps through one binary
+        # semaphore per worker
+        import queue
+        self.back = queue.Queue()
+        self.os_blocks = 0
         for w in self.workers:
             w.go = threading.Lock()
             w.go.acquire()
@@ -267,13 +300,20 @@ class Scheduler:
         try:
             for w in self.workers:
                 w.thread.start()
-                if not self.back.acquire(timeout=STEP_TIMEOUT):
+                if not self._await(w.idx, STEP_TIMEOUT):
                     raise core.MachineryError("scheduler: workers did not start")
             while True:
                 en = self.enabled()
                 if not en:
                     if all(w.state == "done" for w in self.workers):
                         break
+                    if any(w.state == "osblocked" for w in self.workers):
+                        # every schedulable worker has finished or waits; a worker left on an unknown primitive may still wake up
+                        try:
+                            self.back.get(timeout=STEP_TIMEOUT)
+                            continue
+                        except queue.Empty:
+                            pass
                     self.deadlock = True
                     break
                 choice = policy(self, en)
@@ -282,9 +322,24 @@ class Scheduler:
                 self.trace.append((choice, tuple(en)))
                 w = self.workers[choice]
                 w.steps += 1
+                self._drain()
                 w.go.release()
-                if not self.back.acquire(timeout=STEP_TIMEOUT):
-                    raise core.MachineryError(f"scheduler: a step of worker {choice} at {w.pos} did not finish within {STEP_TIMEOUT}s")
+                if not self._await(choice, BLOCK_TIMEOUT):
+                    with self.state_lock:
+                        left_waiting = w.state == "running" and w.thread.is_alive()
+                        if left_waiting:
+                            # the worker waits on something the scheduler cannot see (not one of the proxied locks): leave it
+                            # there and let the others run; it reports again when it reaches its next point
+                            w.state = "osblocked"
+                    if left_waiting:
+                        self.os_blocks += 1
+                        Scheduler.total_os_blocks += 1
+                        if Scheduler.total_os_blocks > OS_BLOCK_BUDGET:
+                            raise core.MachineryError(f"scheduler: workers waited on primitives unknown to the scheduler more than {OS_BLOCK_BUDGET} times "
+                                                      f"(last: worker {choice} at {w.pos})")
+                        self.events.append(("osblocked", choice))
+                    elif not self._await(choice, STEP_TIMEOUT):
+                        raise core.MachineryError(f"scheduler: a step of worker {choice} at {w.pos} did not finish within {STEP_TIMEOUT}s")
         finally:
             self.aborted = True
             for w in self.workers:
@@ -824,12 +879,19 @@ class E2E:
         t = self.tag
         x = np.arange(24, dtype=np.int64).reshape(2, 3, 4)
         y = np.arange(12, dtype=np.int64).reshape(3, 4) + 1
+        # the last call of each thread: the same operation and description with keyword values -1 / -2, which are different
+        # arguments whose CPython hashes coincide (two first-time compilations that only a hash-keyed table would confuse);
+        # the id calls need consecutive reshapes, so both threads are inside the graph optimiser's patterns at the same time
         calls_a = [("sum", lambda: einx.sum(f"a{t} [b{t}] c{t}", x), x.sum(axis=1)),
                    ("sum", lambda: einx.sum(f"a{t} [b{t}] c{t}", x), x.sum(axis=1)),
-                   ("id", lambda: einx.id(f"p{t} q{t} -> q{t} p{t}", y), y.T)]
+                   ("id", lambda: einx.id(f"p{t} q{t} -> q{t} p{t}", y), y.T),
+                   ("id", lambda: einx.id(f"(g{t} h{t}) r{t} -> g{t} (h{t} r{t})", y.reshape(6, 2), **{f"g{t}": 2}), y.reshape(2, 6)),
+                   ("roll", lambda: einx.roll(f"m{t} [n{t}]", y, shift=-1), np.roll(y, -1, axis=1))]
         calls_b = [("sum", lambda: einx.sum(f"a{t} [b{t}] c{t}", x), x.sum(axis=1)),   # same key as A: racing first compilation
                    ("dot", lambda: einx.dot(f"i{t} j{t}, k{t} j{t} -> i{t} k{t}", y, y), y @ y.T),
-                   ("sum", lambda: einx.sum(f"u{t} [v{t}]", y), y.sum(axis=1))]
+                   ("sum", lambda: einx.sum(f"u{t} [v{t}]", y), y.sum(axis=1)),
+                   ("id", lambda: einx.id(f"(e{t} f{t}) s{t} -> e{t} (f{t} s{t})", x.reshape(6, 4), **{f"e{t}": 3}), x.reshape(3, 8)),
+                   ("roll", lambda: einx.roll(f"m{t} [n{t}]", y, shift=-2), np.roll(y, -2, axis=1))]
         return [calls_a, calls_b][: max(1, self.nthreads - 1)]
 
     def run(self, policy):
@@ -1060,7 +1122,14 @@ def run(ctx):
     ctx.extra["phase_s"]["e2e"] = round(time.time() - t0, 1)
     # (iii b) the compiled-function cache under the scheduler (model Cache/Concurrent.lean, theorems Props/C10Cache.lean)
     from props import c10_cache
-    c10_cache.run(ctx)
+    try:
+        c10_cache.run(ctx)
+    except core.MachineryError as e:
+        # the cache harness follows the call/return structure of util/lru_cache.py; when that structure is not the one it
+        # knows, the tie is broken (the e2e schedules above and below still search for a failing input)
+        if "timeout" in str(e) or "did not finish" in str(e) or "could not be joined" in str(e):
+            raise
+        ctx.tie_broken("correspondence:cache-interleaving-harness", str(e)[:300])
 
     def enough():
         # something is broken and a concrete failing input has been found: the expensive phases add nothing
